@@ -155,6 +155,8 @@ func (w *wWorld) addr(name string) common.Address {
 		return w.vals[0].Address
 	case "stranger":
 		return w.stranger.Address
+	case "zero":
+		return common.ADDRESS_EMPTY
 	case "C1":
 		return relay1
 	case "C2":
